@@ -366,7 +366,7 @@ func (gb *gcpBalancer) getReadySubConnRef(boundKey string) (*subConnRef, bool) {
 					return gb.scRefs[sc], true
 				}
 				// Try to create fallback mapping.
-				if scRef, err := gb.picker.(*gcpPicker).getLeastBusySubConnRef(); err == nil {
+				if scRef := gb.leastBusyReadyRef(); scRef != nil {
 					gb.fallbackMap[boundKey] = scRef.subConn
 					return scRef, true
 				}
@@ -376,6 +376,21 @@ func (gb *gcpBalancer) getReadySubConnRef(boundKey string) (*subConnRef, bool) {
 		return gb.scRefs[sc], true
 	}
 	return nil, false
+}
+
+// leastBusyReadyRef returns the ready subConnRef with the least active streams or nil if there are
+// no ready subconns. Must be called holding the mutex lock.
+func (gb *gcpBalancer) leastBusyReadyRef() *subConnRef {
+	var minRef *subConnRef
+	for _, scRef := range gb.scRefList {
+		if gb.scRefs[scRef.subConn] != scRef || gb.scStates[scRef.subConn] != connectivity.Ready {
+			continue
+		}
+		if minRef == nil || scRef.getStreamsCnt() < minRef.getStreamsCnt() {
+			minRef = scRef
+		}
+	}
+	return minRef
 }
 
 func (gb *gcpBalancer) getSubConnRoundRobin(ctx context.Context) *subConnRef {
